@@ -4,6 +4,7 @@ import (
 	"fmt"
 	"math/rand"
 	"sort"
+	"strings"
 	"time"
 
 	pb "github.com/pingcap/kvproto/pkg/replication_modepb"
@@ -146,6 +147,25 @@ func (w *world) setup() bool {
 		if rng.Intn(12) == 0 {
 			delete(s.Labels, "site")
 		}
+		switch rng.Intn(24) {
+		case 0: // the key in another letter case
+			s.List = [][2]string{{"Zone", zone}, {"site", s.Labels["site"]}}
+		case 1:
+			s.List = [][2]string{{"ZONE", zone}, {"SITE", s.Labels["site"]}}
+		case 2: // the same key twice in different case: the first one counts
+			s.List = [][2]string{{"zone", "dc3"}, {"ZONE", zone}}
+		case 3:
+			s.List = [][2]string{{"ZONE", zone}, {"zone", "dc3"}}
+		case 4: // the datacenter name in another letter case: a different name
+			s.List = [][2]string{{"zone", strings.ToUpper(zone)}}
+		case 5: // empty value = no datacenter
+			s.List = [][2]string{{"zone", ""}, {"site", zone}}
+		case 6: // no datacenter label at all
+			s.List = [][2]string{{"host", "h"}}
+		}
+		if s.List != nil {
+			w.r.Count("stores_with_unusual_label_spelling", 1)
+		}
 		id++
 		w.stores = append(w.stores, s)
 	}
@@ -226,10 +246,10 @@ func (w *world) construct() error {
 func (w *world) dcStores() (prim, dr []*storeRec) {
 	d := w.cfg.DRAutoSync
 	for _, s := range w.stores {
-		switch s.Labels[d.LabelKey] {
-		case d.Primary:
+		v := labelValue(s, d.LabelKey)
+		if v == d.Primary {
 			prim = append(prim, s)
-		case d.DR:
+		} else if v == d.DR {
 			dr = append(dr, s)
 		}
 	}
@@ -261,21 +281,27 @@ func (w *world) applyFailure(kind string) {
 	rng := w.rng
 	prim, dr := w.dcStores()
 	tp, td := w.cfg.DRAutoSync.PrimaryReplicas, w.cfg.DRAutoSync.DRReplicas
+	if tp > 8 {
+		tp = 8
+	}
+	if td > 8 {
+		td = 8
+	}
 	dp, dd := 0, 0
 	switch kind {
 	case "up":
 	case "partial":
-		dp = clamp(rng.Intn(tp), 0, len(prim))
-		dd = clamp(rng.Intn(td), 0, len(dr))
+		dp = clamp(intn(rng, tp), 0, len(prim))
+		dd = clamp(intn(rng, td), 0, len(dr))
 	case "dr":
 		dd = clamp(td+rng.Intn(2), 0, len(dr))
 		if rng.Intn(3) == 0 {
-			dp = clamp(rng.Intn(tp), 0, len(prim))
+			dp = clamp(intn(rng, tp), 0, len(prim))
 		}
 	case "primary":
 		dp = clamp(tp+rng.Intn(2), 0, len(prim))
 		if rng.Intn(3) == 0 {
-			dd = clamp(rng.Intn(td), 0, len(dr))
+			dd = clamp(intn(rng, td), 0, len(dr))
 		}
 	case "both":
 		dp = clamp(tp+rng.Intn(2), 0, len(prim))
@@ -284,21 +310,28 @@ func (w *world) applyFailure(kind string) {
 		dp = clamp(tp-1+rng.Intn(3), 0, len(prim))
 		dd = clamp(td-1+rng.Intn(3), 0, len(dr))
 		if rng.Intn(2) == 0 {
-			dp = clamp(rng.Intn(tp), 0, len(prim))
+			dp = clamp(intn(rng, tp), 0, len(prim))
 		} else if rng.Intn(2) == 0 {
-			dd = clamp(rng.Intn(td), 0, len(dr))
+			dd = clamp(intn(rng, td), 0, len(dr))
 		}
 	}
 	w.setDown(prim, dp)
 	w.setDown(dr, dd)
 	// stores outside both datacenters flap freely
 	for _, s := range w.stores {
-		v := s.Labels[w.cfg.DRAutoSync.LabelKey]
+		v := labelValue(s, w.cfg.DRAutoSync.LabelKey)
 		if v != w.cfg.DRAutoSync.Primary && v != w.cfg.DRAutoSync.DR && rng.Intn(3) == 0 {
 			w.setStore(s, !s.Up)
 		}
 	}
 	w.logf("stores", "scenario", kind, "failed_primary", dp, "failed_dr", dd)
+}
+
+func intn(rng *rand.Rand, n int) int {
+	if n <= 0 {
+		return 0
+	}
+	return rng.Intn(n)
 }
 
 func (w *world) storeStep() {
@@ -352,7 +385,12 @@ const (
 	dkSimple
 	dkNil
 	dkGap
+	dkHigh // integrity under an id that equals the served one in the low 32 bits only, or has the top bit set
 )
+
+var kindNames = []string{"stale-id", "simple-majority", "no-status", "absent", "id-differs-in-high-bits"}
+
+func pickKind(rng *rand.Rand) int { return []int{dkStale, dkSimple, dkNil, dkHigh}[rng.Intn(4)] }
 
 type epoch struct {
 	id      uint64
@@ -398,6 +436,9 @@ func (w *world) ordered(list []*regionRec, order int) []*regionRec {
 
 func (w *world) bad(g *regionRec, kind int, cur uint64) {
 	switch kind {
+	case dkHigh:
+		w.put(g, true, []uint64{cur + 1<<32, cur | 1<<63, cur<<32 | cur}[w.rng.Intn(3)], integ)
+		w.r.Count("reports_with_id_differing_in_high_bits", 1)
 	case dkStale:
 		w.put(g, true, w.staleID(cur), integ)
 	case dkSimple:
@@ -449,7 +490,7 @@ func (w *world) newEpoch(id uint64) {
 		for _, i := range pos { // repaired in key order, one or two per step
 			g := w.regs[i]
 			e.defects = append(e.defects, g)
-			e.defOf[g] = rng.Intn(3)
+			e.defOf[g] = pickKind(rng)
 			e.repairAt[g] = step
 			if rng.Intn(3) != 0 {
 				step++
@@ -460,7 +501,7 @@ func (w *world) newEpoch(id uint64) {
 			g := w.regs[rng.Intn(len(w.regs))]
 			if _, ok := e.repairAt[g]; !ok {
 				e.defects = append(e.defects, g)
-				e.defOf[g] = rng.Intn(3)
+				e.defOf[g] = pickKind(rng)
 				e.repairAt[g] = 1 + rng.Intn(step+1)
 			}
 		}
@@ -478,7 +519,7 @@ func (w *world) newEpoch(id uint64) {
 		if len(absent) > 0 && rng.Intn(3) != 0 {
 			e.defKind, e.defects = dkGap, absent
 		} else {
-			e.defKind = rng.Intn(3)
+			e.defKind = pickKind(rng)
 			k := 1
 			if rng.Intn(3) == 0 {
 				k = 2 + rng.Intn(3)
@@ -509,7 +550,7 @@ func (w *world) newEpoch(id uint64) {
 	w.ep = e
 	w.r.Count("epochs_"+[]string{"complete", "partial", "near-complete", "idle", "walk"}[e.kind], 1)
 	w.logf("epoch", "id", id, "kind", []string{"complete", "partial", "near-complete", "idle", "walk"}[e.kind], "order", e.order,
-		"defect", []string{"stale-id", "simple-majority", "no-status", "absent"}[e.defKind], "defects", len(e.defects), "hold", e.hold)
+		"defect", kindNames[e.defKind], "defects", len(e.defects), "hold", e.hold)
 }
 
 func (w *world) isDefect(g *regionRec) bool {
@@ -593,7 +634,7 @@ func (w *world) regionStep() {
 			if i < k {
 				w.put(g, true, cur.ID, integ)
 			} else if rng.Intn(10) == 0 {
-				w.bad(g, rng.Intn(3), cur.ID)
+				w.bad(g, pickKind(rng), cur.ID)
 			}
 		}
 	case epWalk:
@@ -756,7 +797,44 @@ func (w *world) configStep() {
 	n := w.cfg
 	ci := callInfo{kind: "config"}
 	what := ""
-	switch x := rng.Intn(10); {
+	switch x := rng.Intn(16); {
+	case x >= 10:
+		d := &n.DRAutoSync
+		switch rng.Intn(12) {
+		case 0: // the same label key in another letter case (pd compares the configured keys exactly: it switches to async)
+			if d.LabelKey == strings.ToLower(d.LabelKey) {
+				d.LabelKey = strings.ToUpper(d.LabelKey)
+			} else {
+				d.LabelKey = strings.ToLower(d.LabelKey)
+			}
+			what = "label-key-case"
+			ci.labelChange = w.cfg.ReplicationMode == modeDR
+		case 1:
+			d.DR = d.Primary
+			what = "primary-equals-dr"
+		case 2:
+			d.Primary, what = []string{"dc1", "dc2", "dc3", "DC1"}[rng.Intn(4)], "primary-name-only"
+		case 3:
+			d.DR, what = []string{"dc1", "dc2", "dc3", "DC2"}[rng.Intn(4)], "dr-name-only"
+		case 4:
+			d.PrimaryReplicas, what = []int{0, -1, 1 << 31, 1, 2, 3}[rng.Intn(6)], "primary-replicas-only"
+		case 5:
+			d.DRReplicas, what = []int{0, -1, 1 << 31, 1, 2}[rng.Intn(5)], "dr-replicas-only"
+		case 6:
+			d.WaitAsyncTimeout.Duration, what = []time.Duration{-time.Second, -time.Hour, 0, time.Hour}[rng.Intn(4)], "wait-async-only"
+		case 7:
+			d.WaitStoreTimeout.Duration, what = []time.Duration{0, -time.Minute, storeTimeout, storeTimeout}[rng.Intn(4)], "wait-store-only"
+		case 8:
+			d.WaitSyncTimeout.Duration, what = []time.Duration{0, -time.Second, time.Minute, 90 * time.Second}[rng.Intn(4)], "wait-sync-only"
+		case 9:
+			d.Primary, d.DR, what = "", "", "empty-names"
+		default: // back to the plain configuration
+			keepMode := n.ReplicationMode
+			n = drConfig(w.p.TP, w.p.TD, w.asyncWait(), "zone")
+			n.ReplicationMode = keepMode
+			what = "back-to-plain"
+			ci.labelChange = w.cfg.ReplicationMode == modeDR && w.cfg.DRAutoSync.LabelKey != "zone"
+		}
 	case x < 4:
 		if n.ReplicationMode == modeDR {
 			n.ReplicationMode, what = modeMaj, "to-majority"
